@@ -22,6 +22,8 @@ pub static MOCK_DELAY_MS: AtomicU64 = AtomicU64::new(0);
 /// what the mock session server answers to the next requests (front first): an HTTP status, or 0 for
 /// "close the connection without answering"; when empty it answers 200 with a profile
 pub static MOCK_PLAN: Mutex<Vec<u16>> = Mutex::new(Vec::new());
+/// the body of the mock's 200 answers (None: a complete profile)
+pub static MOCK_BODY: Mutex<Option<Vec<u8>>> = Mutex::new(None);
 
 pub async fn mock_server(log: Arc<Mutex<Vec<String>>>) -> std::net::SocketAddr {
     let listener = tokio::net::TcpListener::bind("127.0.0.1:0").await.expect("bind");
@@ -69,9 +71,9 @@ pub async fn mock_server(log: Arc<Mutex<Vec<String>>>) -> std::net::SocketAddr {
                         }
                         _ => {}
                     }
-                    let body = br#"{"id":"069a79f444e94726a5befca90e38aaf5","name":"FromSessionServer","properties":[]}"#;
+                    let body: Vec<u8> = MOCK_BODY.lock().unwrap().clone().unwrap_or_else(|| br#"{"id":"069a79f444e94726a5befca90e38aaf5","name":"FromSessionServer","properties":[]}"#.to_vec());
                     let resp = format!("HTTP/1.1 200 OK\r\ncontent-type: application/json\r\ncontent-length: {}\r\n\r\n", body.len());
-                    if sock.write_all(resp.as_bytes()).await.is_err() || sock.write_all(body).await.is_err() {
+                    if sock.write_all(resp.as_bytes()).await.is_err() || sock.write_all(&body).await.is_err() {
                         return;
                     }
                 }
